@@ -131,6 +131,21 @@ func checkBuild(p *rc.Packet, autoID bool) {
 		out.Violation("c03:reencode:"+tn, fmt.Sprintf("re-encoding a decoded message: Len=%d n=%d err=%v panic=%v", ln3, n3, err, pan), recSummary(p))
 	}
 	out.Class("build/" + classOf(p))
+	// the message that was just encoded is changed through a setter and encoded again (a message is
+	// assembled once and then sent to several peers with another QoS, retain flag or identifier)
+	if what, pan := applySetters(m, b[:n]); what != "" {
+		if pan != nil {
+			out.Violation("c03:modify-panic:"+tn, fmt.Sprint(pan), recSummary(p))
+			return
+		}
+		b4, ln4, n4, err, pan := libEncode(m)
+		want4 := rc.Encode(canonical(libFields(m)))
+		if pan != nil || err != nil || ln4 != n4 || !bytes.Equal(b4[:max(n4, 0)], want4) {
+			out.Violation("c03:modify-after-encode:"+tn, fmt.Sprintf("built, encoded, changed through %s, encoded again: Len()=%d wrote %d err=%v panic=%v; bytes %s, MQTT encoding of its fields %s", what, ln4, n4, err, pan, hex(b4[:max(n4, 0)]), hex(want4)), recSummary(p))
+			return
+		}
+		out.Count("c03.modify_after_encode.checked", 1)
+	}
 }
 
 // checkAccepted is the second half of C03: whatever a decoder accepts must
@@ -497,6 +512,77 @@ func reuseCheck(t byte, cur message.Message, wire []byte, detail map[string]inte
 	out.Count("c03.reuse.checked", 1)
 }
 
+// applySetters changes a message through one or two of its setters (which ones rotates with
+// modifySeq and the length of the packet) and says what it did ("" = nothing applicable).
+func applySetters(m message.Message, wire []byte) (what string, pan interface{}) {
+	modifySeq++
+	defer func() {
+		if r := recover(); r != nil {
+			pan = r
+		}
+	}()
+	switch mm := m.(type) {
+	case *message.ConnectMessage:
+		mm.SetKeepAlive(mm.KeepAlive() + 7)
+		if len(wire)%2 == 0 {
+			mm.SetClientID([]byte("rewritten-id"))
+		}
+		if len(wire)%3 == 0 {
+			mm.SetCleanSession(!mm.CleanSession())
+		}
+		what = "SetKeepAlive/SetClientID/SetCleanSession"
+	case *message.PublishMessage:
+		switch k := modifySeq % 6; {
+		case k == 0:
+			mm.SetPayload([]byte("other payload"))
+			what = "SetPayload"
+		case k == 1:
+			mm.SetTopic([]byte("other/topic"))
+			what = "SetTopic"
+		case k == 2:
+			mm.SetRetain(!mm.Retain())
+			what = "SetRetain"
+		case k == 3 && mm.QoS() > 0:
+			mm.SetDup(!mm.Dup())
+			what = "SetDup"
+		case k == 4 && mm.QoS() > 0:
+			mm.SetPacketID(mm.PacketID()%65535 + 1)
+			what = "SetPacketID"
+		default:
+			q := (mm.QoS() + 1 + byte(modifySeq/6%2)) % 3
+			mm.SetQoS(q)
+			if q == 0 {
+				mm.SetDup(false)
+			}
+			what = fmt.Sprintf("SetQoS(%d)", q)
+		}
+	case *message.SubscribeMessage:
+		if ts := mm.Topics(); len(ts) > 0 && len(wire)%3 == 0 {
+			// only the requested QoS of a filter the packet carried is changed
+			mm.AddTopic(append([]byte{}, ts[0]...), (mm.Qos()[0]+1)%3)
+			what = "AddTopic(existing filter, other QoS)"
+			break
+		}
+		mm.AddTopic([]byte("added/by/setter"), 1)
+		if ts := mm.Topics(); len(ts) > 1 && len(wire)%2 == 0 {
+			mm.RemoveTopic(append([]byte{}, ts[0]...))
+		}
+		what = "AddTopic/RemoveTopic"
+	case *message.SubackMessage:
+		mm.AddReturnCodes([]byte{1})
+		what = "AddReturnCodes"
+	case *message.UnsubscribeMessage:
+		mm.AddTopic([]byte("added/by/setter"))
+		if ts := mm.Topics(); len(ts) > 1 && len(wire)%2 == 0 {
+			mm.RemoveTopic(append([]byte{}, ts[0]...))
+		}
+		what = "AddTopic/RemoveTopic"
+	default:
+		what = ""
+	}
+	return
+}
+
 // modifyAfterDecode decodes the packet once more, changes it through one or two setters and compares
 // the encoding with the reference encoding of the fields the message then reports.
 func modifyAfterDecode(t byte, wire []byte, detail map[string]interface{}) {
@@ -531,74 +617,7 @@ func modifyAfterDecodeInto(t byte, wire, prev []byte, detail map[string]interfac
 			return // reported by reuseCheck
 		}
 	}
-	modifySeq++
-	what := ""
-	func() {
-		defer func() {
-			if r := recover(); r != nil {
-				pan = r
-			}
-		}()
-		switch mm := m.(type) {
-		case *message.ConnectMessage:
-			mm.SetKeepAlive(mm.KeepAlive() + 7)
-			if len(wire)%2 == 0 {
-				mm.SetClientID([]byte("rewritten-id"))
-			}
-			if len(wire)%3 == 0 {
-				mm.SetCleanSession(!mm.CleanSession())
-			}
-			what = "SetKeepAlive/SetClientID/SetCleanSession"
-		case *message.PublishMessage:
-			switch k := modifySeq % 6; {
-			case k == 0:
-				mm.SetPayload([]byte("other payload"))
-				what = "SetPayload"
-			case k == 1:
-				mm.SetTopic([]byte("other/topic"))
-				what = "SetTopic"
-			case k == 2:
-				mm.SetRetain(!mm.Retain())
-				what = "SetRetain"
-			case k == 3 && mm.QoS() > 0:
-				mm.SetDup(!mm.Dup())
-				what = "SetDup"
-			case k == 4 && mm.QoS() > 0:
-				mm.SetPacketID(mm.PacketID()%65535 + 1)
-				what = "SetPacketID"
-			default:
-				q := (mm.QoS() + 1 + byte(modifySeq/6%2)) % 3
-				mm.SetQoS(q)
-				if q == 0 {
-					mm.SetDup(false)
-				}
-				what = fmt.Sprintf("SetQoS(%d)", q)
-			}
-		case *message.SubscribeMessage:
-			if ts := mm.Topics(); len(ts) > 0 && len(wire)%3 == 0 {
-				// only the requested QoS of a filter the packet carried is changed
-				mm.AddTopic(append([]byte{}, ts[0]...), (mm.Qos()[0]+1)%3)
-				what = "AddTopic(existing filter, other QoS)"
-				break
-			}
-			mm.AddTopic([]byte("added/by/setter"), 1)
-			if ts := mm.Topics(); len(ts) > 1 && len(wire)%2 == 0 {
-				mm.RemoveTopic(append([]byte{}, ts[0]...))
-			}
-			what = "AddTopic/RemoveTopic"
-		case *message.SubackMessage:
-			mm.AddReturnCodes([]byte{1})
-			what = "AddReturnCodes"
-		case *message.UnsubscribeMessage:
-			mm.AddTopic([]byte("added/by/setter"))
-			if ts := mm.Topics(); len(ts) > 1 && len(wire)%2 == 0 {
-				mm.RemoveTopic(append([]byte{}, ts[0]...))
-			}
-			what = "AddTopic/RemoveTopic"
-		default:
-			what = ""
-		}
-	}()
+	what, pan := applySetters(m, wire)
 	if what == "" {
 		return
 	}
